@@ -105,11 +105,23 @@ def run_one(sh, case, driver='generated'):
         del sys.modules[m]
     if use_fake:
         sys.path.insert(0, fake)
+    opts = copy.deepcopy(kw)
+    for dst, src in (case.get('alias') or []):
+        put(opts, dst, get(opts, src))          # the same dict object at both positions (equal values by construction)
+        sh.note('option_list_with_one_object_at_several_positions')
+    if api == 'func' and case.get('reuse_options'):
+        # the caller keeps its option objects: an earlier (unobserved) call with the SAME objects precedes the observed one
+        try:
+            with quiet():
+                compute_features_3d(as_layout(sigs), fs, fr, compute_features_kwargs=opts, axis=axis, return_samples=rs, n_jobs=1)
+            sh.note('second_call_with_the_same_option_objects')
+        except Exception:
+            sh.note('first_call_raised')
     with poollog.Session(os.environ.get('BCVERIF_WORK', '/tmp'), delays) as ses:
         try:
             with quiet():
                 if api == 'func':
-                    res = compute_features_3d(as_layout(sigs), fs, fr, compute_features_kwargs=copy.deepcopy(kw),
+                    res = compute_features_3d(as_layout(sigs), fs, fr, compute_features_kwargs=opts,
                                               axis=axis, return_samples=rs, n_jobs=case['n_jobs'], progress=case.get('progress'))
                 else:
                     o = copy.deepcopy(kw) or {}
@@ -215,6 +227,18 @@ def epoch_opts(rng, lo):
     return o
 
 
+def get(kw, idx):
+    for i in idx:
+        kw = kw[i]
+    return kw
+
+
+def put(kw, idx, val):
+    for i in idx[:-1]:
+        kw = kw[i]
+    kw[idx[-1]] = val
+
+
 def make_case(rng, shape=None, axis=None, kind=None):
     fs, lo, hi = gen.gen_config(rng, small=True)
     if shape is None:
@@ -243,13 +267,23 @@ def make_case(rng, shape=None, axis=None, kind=None):
         else:
             c = str(rng.choice(['peak', 'trough']))
             kw = [[dict(epoch_opts(rng, lo), center_extrema=c) for _ in range(n1)] for _ in range(n0)]
+    alias = None
+    if kind in ('1d', '2d') and rng.random() < 0.4:
+        # the caller built its list from a few dict OBJECTS used at several positions (first and last the same object, ...)
+        flat = [(i,) for i in range(len(kw))] if kind == '1d' else [(i, j) for i in range(len(kw)) for j in range(len(kw[0]))]
+        if len(flat) >= 2:
+            alias = [[list(flat[-1]), list(flat[0])]]
+            if len(flat) >= 4 and rng.random() < 0.5:
+                alias.append([list(flat[-2]), list(flat[1])])
+            for dst, src in alias:
+                put(kw, dst, copy.deepcopy(get(kw, src)))
     refit_from = None
     if api == 'obj' and rng.random() < 0.6:
         m1 = int(rng.choice([m for m in (1, 2, 3, 4) if m != n1]))
         prev = gen_rows(rng, n0 * m1, nsamp, fs, lo, hi).reshape(n0, m1, nsamp)
         refit_from = prev if rng.random() < 0.8 else prev[:, 0, :]
-    return dict(sigs=sigs, fs=fs, f_range=(lo, hi), kwargs=kw, kw_kind=kind, axis=axis, refit_from=refit_from,
-                layout=['C', 'C', 'F', 'T'][int(rng.integers(0, 4))],
+    return dict(sigs=sigs, fs=fs, f_range=(lo, hi), kwargs=kw, kw_kind=kind, axis=axis, refit_from=refit_from, alias=alias,
+                layout=['C', 'C', 'F', 'T'][int(rng.integers(0, 4))], reuse_options=bool(rng.random() < 0.35),
                 return_samples=bool(rng.random() < 0.7), n_jobs=int(rng.choice([1, 2, -1])), api=api,
                 delay_seed=int(rng.integers(0, 1 << 30)),
                 progress=[None, None, 'tqdm', 'tqdm.notebook'][int(rng.integers(0, 4))], fake_tqdm=bool(rng.random() < 0.5))
